@@ -1317,7 +1317,26 @@ class HashSetProfile(TreeProfile):
         self.hashers = {}
         if fi.fn.name == "next":
             return self.translate_next(fi)
+        if fi.fn.name == "iter":
+            return self.translate_iter(fi)
         return Translator.translate_fn(self, fi)
+
+    def translate_iter(self, fi):
+        """`iter(&self)`: the initial state `(bucket, node)` of the iterator it constructs."""
+        f = fi.fn
+        t = f.body.tail
+        if f.body.stmts or t is None or t.kind != "struct":
+            raise Untranslatable("iter(): expected a struct literal")
+        vals = dict((k, v) for k, v in t.fields)
+        if set(vals) != {"hash_set", "bucket", "node"} or not self.is_self(vals["hash_set"]):
+            raise Untranslatable("iter(): unexpected iterator fields")
+        self.cur = fi
+        self.env = [{}]
+        self.mutset = set()
+        self.aliases = {}
+        b, n = self.ex(vals["bucket"]), self.ex(vals["node"])
+        return (f"/-- `iter` (line {f.src_line}): the iterator's initial `bucket` / `node`. -/\n"
+                f"def {fi.lean_name} {self.PRE_PARAMS} (m : HImage β) : Nat × Nat := ({b}, {n})")
 
     def translate_next(self, fi):
         f = fi.fn
@@ -1500,7 +1519,7 @@ class HashSetProfile(TreeProfile):
 
 
 HSET_FUNCS = {"initialize@HashSetMut<": "initialize_set"}
-HSET_FUNCS.update({n: n for n in ["capacity", "size", "is_full", "is_empty", "contains", "add_node", "remove_node", "insert", "remove", "next"]})
+HSET_FUNCS.update({n: n for n in ["capacity", "size", "is_full", "is_empty", "contains", "add_node", "remove_node", "insert", "remove", "next", "iter"]})
 
 HSET_HEADER = '''/-
   GENERATED by tools/rust2lean.py from {path} — do not edit.
@@ -1565,7 +1584,7 @@ class ArraySetProfile(Translator):
         super().__init__(src, wanted)
 
     def accept_fn(self, f):
-        return f.name not in ("from_bytes", "from_bytes_mut", "deref")
+        return f.name not in ("from_bytes", "from_bytes_mut")
 
     def translate_fn(self, fi):
         self.ptrs = {}
@@ -1597,6 +1616,8 @@ class ArraySetProfile(Translator):
             t = ty.replace(" ", "")
             if t in ("Option<&V>", "Option<&mutV>"):
                 return "Option α"
+            if t in ("&Self::Target", "&[V]"):
+                return "List α"
         return super().lean_type(ty)
 
     # -- places
@@ -1640,6 +1661,13 @@ class ArraySetProfile(Translator):
         return super().ex(e, hoist)
 
     def profile_index(self, e, hoist):
+        if self.is_values(e.e) and e.idx.kind == "range":
+            # the slice view `&self.values[..n]`
+            if e.idx.lo is not None or e.idx.hi is None or not hoist:
+                raise Untranslatable("unexpected slice of the values")
+            n = self.ex(e.idx.hi, hoist)
+            self.em.w(f"if ¬ ({n} ≤ m.vals.length) then failure")
+            return f"m.vals.take {self.atom(n)}"
         if self.is_values(e.e):
             if not hoist:
                 raise Untranslatable("indexing in a position where the bounds check cannot be hoisted")
@@ -1736,7 +1764,7 @@ class ArraySetProfile(Translator):
             self.em.w("pure ()")
 
 
-ASET_FUNCS = {n: n for n in ["len", "is_empty", "is_full", "index", "get", "contains", "get_mut", "insert", "take", "remove"]}
+ASET_FUNCS = {n: n for n in ["len", "is_empty", "is_full", "index", "get", "contains", "get_mut", "insert", "take", "remove", "deref"]}
 
 ASET_HEADER = '''/-
   GENERATED by tools/rust2lean.py from {path} — do not edit.
